@@ -42,7 +42,13 @@ def values():
     printable = st.text(alphabet=st.characters(min_codepoint=0x20, max_codepoint=0x7e), max_size=200)
     brk = st.sampled_from(["\r", "\n", "\r\n", "\r\nSIGNAL HALT", "x\ny", "a b\r\nSETCONF ORPort=1", "\"\r\n"])
     mixed = st.tuples(printable, brk, crit).map(lambda t: t[0][:20] + t[1] + t[2])
-    return st.one_of(crit, crit, printable, mixed, brk, st.integers(-5, 70000), st.booleans(), st.just(""))
+    # long values dense with characters that need escaping (more than 16 of them), and control characters
+    # immediately followed by digits (a variable-length octal escape would swallow the digit)
+    dense = st.lists(st.sampled_from(ALPHA + ["\r", "\n", "0", "7", "1"]), min_size=40, max_size=90).map("".join)
+    ctl_digit = st.tuples(st.sampled_from(["\n", "\r", "\t", "\\", '"']), st.sampled_from("01237"), crit).map(
+        lambda t: "x" + t[0] + t[1] + t[2])
+    return st.one_of(crit, crit, printable, mixed, brk, dense, ctl_digit, st.integers(-5, 70000), st.booleans(),
+                     st.just(""))
 
 
 def cases():
